@@ -159,11 +159,69 @@ def audit(prop, theorems):
     return res, out
 
 
+def import_closure(roots):
+    seen, todo = set(), list(roots)
+    while todo:
+        m = todo.pop()
+        if m in seen:
+            continue
+        seen.add(m)
+        path = os.path.join(LEAN, *m.split('.')) + '.lean'
+        if not os.path.exists(path):
+            continue
+        for line in open(path, encoding='utf-8'):
+            mm = re.match(r'\s*import\s+(PromVerif\.[A-Za-z0-9_.]+)', line)
+            if mm:
+                todo.append(mm.group(1))
+    return seen
+
+
+def relevant_generated(prop):
+    """Generated/<X>.lean modules that Props/<prop>.lean imports transitively (so an extraction failure elsewhere is not
+    this property's broken obligation)."""
+    seen, gen, todo = set(), set(), ['PromVerif.Props.' + prop]
+    while todo:
+        m = todo.pop()
+        if m in seen:
+            continue
+        seen.add(m)
+        path = os.path.join(LEAN, *m.split('.')) + '.lean'
+        if not os.path.exists(path):
+            continue
+        for line in open(path, encoding='utf-8'):
+            mm = re.match(r'\s*import\s+(PromVerif\.[A-Za-z0-9_.]+)', line)
+            if mm:
+                if mm.group(1).startswith('PromVerif.Generated.'):
+                    gen.add(mm.group(1).split('.')[-1])
+                todo.append(mm.group(1))
+    return gen
+
+
 class Driver:
     """Batch interface to the native model driver: send request lines, get reply lines."""
 
     def __init__(self):
         self.ok = os.path.exists(DRIVER)
+        self.path = DRIVER
+
+    def snapshot(self):
+        """take a private copy of the freshly built binary (called under the build lock), so that a concurrent check
+        rebuilding the shared tree cannot swap the model under this run"""
+        import atexit
+        import shutil
+        import tempfile
+        if not os.path.exists(DRIVER):
+            self.ok = False
+            return
+        d = os.path.join(LEAN, '.lake', 'drv')
+        os.makedirs(d, exist_ok=True)
+        fd, p = tempfile.mkstemp(prefix='pvdriver-', dir=d)
+        os.close(fd)
+        shutil.copy2(DRIVER, p)
+        os.chmod(p, 0o755)
+        self.path = p
+        self.ok = True
+        atexit.register(lambda: os.path.exists(p) and os.remove(p))
 
     def run(self, lines, timeout=600):
         if not self.ok:
@@ -172,7 +230,7 @@ class Driver:
             return []
         data = ('\n'.join(lines) + '\n').encode('utf-8')
         try:
-            p = subprocess.run([DRIVER], input=data, stdout=subprocess.PIPE, stderr=subprocess.PIPE, timeout=timeout)
+            p = subprocess.run([self.path], input=data, stdout=subprocess.PIPE, stderr=subprocess.PIPE, timeout=timeout)
         except subprocess.TimeoutExpired:
             raise Infra('driver timeout')
         out = p.stdout.decode('utf-8').split('\n')
@@ -242,15 +300,27 @@ class Ctx:
         with LeanLock():
             fails, txt = extract()
             self.notes.append(txt)
+            rel = relevant_generated(self.prop)
             for f in fails:
+                if f not in rel:
+                    self.notes.append('extraction site %s failed but is not imported by Props.%s' % (f, self.prop))
+                    continue
                 self.broken.append('extraction site failed: Generated/%s.lean (see EXTRACT-FAIL comment)' % f)
             ok_drv, out_drv = lake_build(['pvdriver'])
             if not ok_drv:
-                self.broken.append('model/driver no longer builds against the regenerated definitions')
+                # which modules failed?  only those this property's theorems or driver module depend on are its concern
+                failed = set(re.findall(r'PromVerif/([A-Za-z0-9_/]+)\.lean:\d+:\d+: error', out_drv))
+                failed = {'PromVerif.' + f.replace('/', '.') for f in failed}
+                mine = import_closure(['PromVerif.Props.' + self.prop, 'PromVerif.Drv.' + self.prop])
+                if not failed or failed & mine:
+                    self.broken.append('model/driver no longer builds against the regenerated definitions: %s' % sorted(failed & mine or failed))
+                else:
+                    self.notes.append('driver unavailable (modules outside this property failed to build: %s); correspondence skipped, oracle still run' % sorted(failed))
+                    self.extra['driver_unavailable'] = sorted(failed)
                 self.build_log += out_drv[-4000:]
                 self.driver.ok = False
             else:
-                self.driver.ok = os.path.exists(DRIVER)
+                self.driver.snapshot()
             ok, out = lake_build(['PromVerif.Props.' + self.prop] + list(extra_targets))
             self.obligations = len(theorems)
             if not ok:
